@@ -62,7 +62,9 @@ RULE = ("transit-world transfers: file sizes {0,1,CHUNK±1,4*CHUNK±1,8*CHUNK±1
         "shorter; planted, or left behind by a real interrupted transfer run first in the same sandbox); payload content classes "
         "(pseudo-random, all-zero, all-0xFF, one repeated byte, random with an all-zero tail/head/middle block of 1..2*CHUNK bytes; "
         "also as members of directory trees and as all-zero records in the record-level stream); texts, file names, directory names "
-        "and tree members that are not NFC (NFD, singleton signs, Hangul jamo, reordered combining marks, mixes), the offer travelling "
+        "and tree members that are not NFC; tree members (files and empty directories) whose names contain backslashes, drive colons, "
+        "wildcards, quotes, <>|, trailing dots/spaces, DEL and control characters, DOS device names (the received tree is compared "
+        "with the sent one by exact relative names and kinds); names (NFD, singleton signs, Hangul jamo, reordered combining marks, mixes), the offer travelling "
         "through the real Sender._send_data / Receiver._get_data (dict_to_bytes / bytes_to_dict); plus an adversarial record-level stream against the real "
         "Receiver (over/under-long, empty records, loss before attach); non-trivial = reached a transfer outcome; distinct = "
         "distinct canonical output traces")
@@ -710,7 +712,12 @@ def _run_xfer(case, box, srcname):
             return True, ""
         got = snapshot_tree(dest) if os.path.isdir(dest) else None
         if got != src_snapshot:
-            return False, f"received tree differs from the tree sent: {sorted((got or {}).keys())[:6]} vs {sorted(src_snapshot.keys())[:6]}"
+            g = got or {}
+            missing = sorted(k for k in src_snapshot if k not in g)
+            extra = sorted(k for k in g if k not in src_snapshot)
+            changed = sorted(k for k in g if k in src_snapshot and g[k] != src_snapshot[k])
+            return False, (f"received tree differs from the tree sent (exact relative names, kinds, modes, bytes): sent but not received "
+                           f"{missing[:5]!r}; received but not sent {extra[:5]!r}; different kind/mode/content {changed[:5]!r}")
         return True, ""
 
     if rs == "ok" and ss == "ok":
@@ -821,7 +828,15 @@ TREES = [
     [["only-empty-dir", None]],
     [["d1/d2/d3/deep", 3], ["d1/.hidden", 70], ["z", CHUNK + 5]],
     [["big", 3 * CHUNK + 7], ["x y", 1]],
+    # names INSIDE the tree with characters that are ordinary on POSIX but special somewhere else: backslash (a path separator
+    # on Windows), drive colons, wildcards, quotes, angle brackets, pipes, trailing dots / spaces, DEL and control characters,
+    # reserved DOS device names; for files and for empty directories, at top level and nested
+    [["C:\\Users\\me\\report.doc", 11], ["docs/a\\b", 5], ["docs/a", 6], ["empty\\dir", None], ["sub\\file.txt", 3], ["\\lead", 1],
+     ["trail\\", 2]],
+    [["q?*.txt", 4], ['say "x"', 5], ["<in>|out", 6], ["colon:stream", 7], ["trail. ", 8], ["dot.", 9], [" lead", 1], ["del\x7f", 2],
+     ["ctl\x01\x1f", 3], ["tab\there", 4], ["new\nline", 5], ["CON", 6], ["aux.txt", 7], ["e?/d*\\e", None], ["e?/ \\ ", 3]],
 ]
+SPECIAL_COMPONENTS = ["a\\b", "\\", "x\\", "\\x", "c:", "C:\\d", "s*", "w?", 'q"', "<", ">", "p|", "t.", "t ", "d\x7f", "c\x02", "n\nl", "NUL", "a\\b\\c"]
 TEXTS = ["hello", "it's", 'say "hi"', "both ' and \"", "back\\slash", "line1\nline2", "tab\there", "\x1b[31mred\x07", "ünï©ode ✓",
          "\U0001f600", "\\n is not a newline", "trailing\\", "\x7f\x00\x01", "a" * 300, " sep", "'", '"', "\\'"]
 # strings that are NOT in Unicode normalisation form C (or that NFC/NFKC would change): a codec that normalises on the way
@@ -873,6 +888,9 @@ def corpus():
         out.append(xfer(filep(sz), grow=g, chunk="rec"))
     for t in TREES:
         out.append(xfer(dict(type="dir", tree=t, pseed=3), name="the dir", chunk="rand", cseed=len(t)))
+    out.append(xfer(dict(type="dir", tree=TREES[5], pseed=4), name="back\\slash dir", chunk="rec"))
+    out.append(xfer(dict(type="dir", tree=TREES[6], pseed=4), name="d", early=99, chunk="rec"))
+    out.append(xfer(dict(type="dir", tree=TREES[5], pseed=4), name="d", fault=dict(kind="cut", at=["ratio", 1 << 19])))
     out.append(xfer(dict(type="dir", tree=TREES[0], pseed=3), name="d", fault=dict(kind="cut", at=["ratio", 1 << 19])))
     out.append(xfer(dict(type="dir", tree=TREES[3], pseed=3), name="d", fault=dict(kind="flip", at=["ratio", 900000], bit=3)))
     out.append(xfer(dict(type="dir", tree=TREES[4], pseed=3), name="d", fault=dict(kind="cut", at=["rec", 99, -1])))
@@ -971,7 +989,8 @@ def gen_xfer(rng):
         tree = []
         for i in range(rng.randrange(0, 5)):
             depth = rng.randrange(1, 4)
-            comps = [rng.choice(["a", "b c", "ä", "-x", ".h", "Z", "e\u0301", "\u1112\u1161", "\u212b"]) + str(i) for _ in range(depth)]
+            comps = [rng.choice(["a", "b c", "ä", "-x", ".h", "Z", "e\u0301", "\u1112\u1161", "\u212b"] + SPECIAL_COMPONENTS) + str(i)
+                     + rng.choice(["", "", "", "\\", ".", " ", "\\z"]) for _ in range(depth)]
             ent = ["/".join(comps), None if rng.random() < 0.25 else rng.choice([0, 1, 100, 4096, CHUNK, CHUNK + 1, 50000])]
             if ent[1] is not None and rng.random() < 0.4:
                 ent.append(rng.choice(FILLS))
